@@ -24,7 +24,7 @@ def handle (line : String) : String :=
   | op :: _ =>
     if op == "tpkt_read" || op == "x224_read" || op == "tpkt_tls" then c13 toks
     else if op == "tpkt_write" || op == "x224_write" || op == "tpkt_writes" || op == "link_write" || op == "tpkt_write_msg" then c14 toks
-    else if op == "blit" || op == "blitz" || op == "blit16" || op == "blitd" || op == "blitseq" then c19 toks
+    else if op == "blit" || op == "blitz" || op == "blit16" || op == "blitd" || op == "blitseq" || op == "blitdseq" then c19 toks
     else if op.startsWith "per_" then per toks
     else if op == "gsess" then gsess toks
     else if op == "decomp" then c08 toks
